@@ -13,6 +13,7 @@ use crate::Emitter;
 
 pub fn generate(thorough: bool, seed: u64, em: &mut Emitter) {
     let mut r = Rng::new(seed ^ 0xC08);
+    generate_large_verify(seed, if thorough { 40 } else { 8 }, em);
     let n = if thorough { 40_000 } else { 2_500 };
     for i in 0..n {
         let mut rc = r.fork();
@@ -73,5 +74,26 @@ pub fn generate(thorough: bool, seed: u64, em: &mut Emitter) {
             super::present::decorate_session(r, &mut case);
             em.case("present", case);
         }
+    }
+}
+
+/// large foreign tokens: every disclosure, in random order, through Holder::verify, Verifier::verify and the independent verifier
+pub fn generate_large_verify(seed: u64, n: usize, em: &mut Emitter) {
+    let mut r = Rng::new(seed ^ 0xC08_1A26E);
+    for v in 0..n {
+        let mut rc = r.fork();
+        let r = &mut rc;
+        let (claims, marks) = gen::large_claims_and_marking(r, v);
+        let alg = indep::ALGS[v % 3];
+        let opts = RefOpts { alg: alg.to_string(), decoys: v % 2 == 0, odd_format: false };
+        let tok = ref_issue(r, &claims, &marks, &opts);
+        let mut list: Vec<String> = tok.discs.iter().map(|d| d.string.clone()).collect();
+        r.shuffle(&mut list);
+        let mut case = super::c03::make_case(&tok, &list, "accept", true, &[]);
+        case.as_object_mut().unwrap().remove("clear_hint");
+        case["expect"] = expectation(&tok, &claims, &list, "accept");
+        case["ref_check"] = json!(true);
+        case["tag"] = json!("large_document");
+        em.case("verify", case);
     }
 }
